@@ -9,7 +9,8 @@ from ..core import Failure, Unit
 
 PROPERTY = "C20"
 RULE = ("Cases = (generator, parameters, seed). makerandCIJ_und/_dir and makeringlatticeCIJ: complete enumeration of all (N,K) pairs up to the "
-        "stated N x several seeds, random beyond; maketoeplitzCIJ: N<=12, K<=1/3 of the cells, s in {.5,1,2,4}; makeevenCIJ: N in {4..32} powers "
+        "stated N x several seeds, random beyond, N handed over as Python int or as NumPy scalar (uint8, int8, int16, uint16, int64), plus large sizes "
+        "(N 300-1000, very sparse or nearly full); maketoeplitzCIJ: N<=12, K<=1/3 of the cells, s in {.5,1,2,4}; makeevenCIJ: N in {4..32} powers "
         "of two, all cluster sizes, K from the cluster-only count up to N(N-1); makefractalCIJ: mx_lvl 2..5, E in {1.5,2,3}; "
         "makerandCIJdegreesfixed: in/out degree pairs obtained as the degrees of a random simple digraph (graphical by construction). "
         "Oracle = exact combinatorial predicates on the returned matrix (shape, 0/1, empty diagonal, count, symmetry, band structure, "
@@ -57,7 +58,7 @@ def check(case, ctx):
     if g in ("rand_und", "rand_dir"):
         n, k = case["n"], case["k"]
         f = bct.makerandCIJ_und if g == "rand_und" else bct.makerandCIJ_dir
-        R = run(f, n, k)
+        R = run(f, _typed(n, case, ctx), k)
         if R is None:
             return fails
         R = _basic(f.__name__, R, n, case, fails)
@@ -79,7 +80,7 @@ def check(case, ctx):
 
     if g == "ring":
         n, k = case["n"], case["k"]
-        R = run(bct.makeringlatticeCIJ, n, k)
+        R = run(bct.makeringlatticeCIJ, _typed(n, case, ctx), k)
         if R is None:
             return fails
         R = _basic("makeringlatticeCIJ", R, n, case, fails)
@@ -108,7 +109,7 @@ def check(case, ctx):
 
     if g == "toeplitz":
         n, k, s = case["n"], case["k"], case["s"]
-        R = run(bct.maketoeplitzCIJ, n, k, s)
+        R = run(bct.maketoeplitzCIJ, _typed(n, case, ctx), k, s)
         if R is None:
             return fails
         R = _basic("maketoeplitzCIJ", R, n, case, fails)
@@ -193,6 +194,16 @@ def _nk_list(tier):
     return out
 
 
+def _typed(n, case, ctx):
+    """the size as the caller holds it: a Python int, or a NumPy integer scalar (what loadmat / array indexing / len-arithmetic produce);
+    with the narrow types n*(n-1) does not fit although n does"""
+    t = case.get("n_type")
+    if not t:
+        return n
+    ctx.label("N-as-" + t)
+    return getattr(np, t)(n)
+
+
 _NK = {}
 
 
@@ -215,12 +226,12 @@ def cases(draw):
         n = draw(st.integers(2, 20))
         kmax = n * (n - 1) // 2 if g == "rand_und" else n * (n - 1)
         k = draw(st.integers(0, kmax))
-        return {"gen": g, "n": n, "k": k, "seed": seed}
+        return {"gen": g, "n": n, "k": k, "seed": seed, "n_type": draw(st.sampled_from(["uint8", None, "int8", None, "int16", "int64", None, "uint16"]))}
     if g == "toeplitz":
         n = draw(st.integers(4, 12))
         k = draw(st.integers(1, max(1, n * (n - 1) // 3)))
         s = draw(st.sampled_from([0.5, 1.0, 2.0, 4.0]))
-        return {"gen": g, "n": n, "k": k, "s": s, "seed": seed}
+        return {"gen": g, "n": n, "k": k, "s": s, "seed": seed, "n_type": draw(st.sampled_from(["uint8", None, "int8", None, "int64"]))}
     if g == "even":
         m = draw(st.integers(2, 5))
         n = 2 ** m
@@ -239,8 +250,13 @@ def cases(draw):
 @st.composite
 def large_cases(draw):
     """one size class up: counts beyond 10^5 (a relative tolerance on the count would show here)"""
-    g = draw(st.sampled_from(["toeplitz", "rand_dir", "toeplitz", "rand_und", "toeplitz", "ring"]))
+    g = draw(st.sampled_from(["toeplitz", "rand_dir", "sparse_und", "rand_und", "toeplitz", "ring", "sparse_dir", "sparse_und"]))
     seed = draw(gen.seeds())
+    if g.startswith("sparse"):
+        # large and very sparse: well under 1% of the cells
+        n = draw(st.sampled_from([600, 1000, 300, 800]))
+        m = n * (n - 1) // 2 if g == "sparse_und" else n * (n - 1)
+        return {"gen": "rand_und" if g == "sparse_und" else "rand_dir", "n": n, "k": draw(st.integers(m // 300, m // 101)), "seed": seed}
     n = draw(st.sampled_from([360, 400, 450]))
     if g == "toeplitz":
         return {"gen": g, "n": n, "k": draw(st.sampled_from([100000, 100003, 120001])), "s": draw(st.sampled_from([150.0, 200.0])), "seed": seed}
@@ -250,7 +266,7 @@ def large_cases(draw):
 
 def units(tier):
     return [
-        Unit("large-sizes", check, strategy=large_cases, examples=(64, 400), shards=(16, 16)),
+        Unit("large-sizes", check, strategy=large_cases, examples=(96, 640), shards=(16, 16)),
         Unit("exhaustive-N-K", check, count=lambda t: len(_nk(t)), cases=_exh, shards=(16, 32),
              space="makerandCIJ_und/_dir, makeringlatticeCIJ: every (N,K), N<=%d, x %d seeds" % ((7, 3) if tier == "quick" else (9, 8))),
         Unit("random-parameters", check, strategy=cases, examples=(6000, 320000), shards=(8, 16)),
